@@ -23,7 +23,10 @@ SPEC = dict(
     bounded=[dict(name='C03-bounded', script='bounded/C03.py')],
     replay_finder='bounded/C03.py',
     explanation='ground obligations on the two ion-offset representations + bounded relational check; see level_text',
-    proved_clauses=['the real composition calculator _sequence_comp (both adduct variants; no static rules -- comp_mass condenses them first; no global '
+    proved_clauses=['per-part link for the TABLES (ground, exact rational arithmetic on the real tables of this run, 84 obligations): each residue mass '
+                    '(both modes) == the mass of its table composition, each neutral ion-type adjustment (both modes) == the mass of its composition '
+                    'adjustment -- so the residue / ion-type parts of mass() (contracts/masssum.py) and of _sequence_comp (contracts/seqcomp.py) agree',
+                    'the real composition calculator _sequence_comp (both adduct variants; no static rules -- comp_mass condenses them first; no global '
                     'label): for ANY weighting of the entry symbols -- so for the atomic masses of either mode -- the weighted total of the reported '
                     'composition == sum over residues of the table composition + ion-type adjustment + charge carriers / adducts + the composition of '
                     'every modification where it is written (labile only for the precursor) + isotope neutrons; no zero entries; the two residue '
